@@ -28,7 +28,7 @@ MsgNames == {"Define", "Bind", "UpdateBinding", "Disable", "Enable", "RefundDepo
 ModNames == {"ModCreate", "ModPause", "ModStart", "ModKill", "ModUpdate"}
 SubNames == {"BeginEndBlock", "ExpireBatch", "Mid", "StartBatch", "EndBlock"}
 \* events that are not steps of the system: start of a new history, observation of the state
-MetaNames == {"reset", "Obs", "PrepZeroHeight", "Genesis"}
+MetaNames == {"reset", "restore", "Obs", "PrepZeroHeight", "Genesis"}
 \* (zero-height preparation and export end a history: the chain stops there, and only C19 and
 \* C20 speak about those two steps)
 
@@ -54,6 +54,10 @@ INF == -1
 TotMax(a, b) == IF a = INF \/ b = INF THEN INF ELSE Max(a, b)
 
 HistInit == <<>>
+
+\* after a "restore" (the exhaustive search of the implementation returns to an earlier node) the
+\* past of the existing contexts is not known to the monitor: nothing is assumed about it
+HistUnknown(cx) == [id \in DOMAIN cx |-> [created |-> -1, lastStart |-> -1, maxTotal |-> INF, stable |-> FALSE]]
 
 \* computed from the step (vars, vars'); never read by Service's actions
 HistNext ==
